@@ -296,6 +296,30 @@ def build_param_value(tv):
     return S.build_value(t, v)
 
 
+def _maybe_raw_datetime(pname, t, pv):
+    """
+    InvokeMethod accepts Python datetime/timedelta objects for parameters
+    given as (name, value) tuples or keyword arguments (type inferred as
+    datetime).  For parameter names of even length the CIMDateTime value of
+    the recipe is handed over as the equivalent Python object (decided by
+    the recipe, no randomness here).
+    """
+    if t != 'datetime' or len(pname) % 2:
+        return pv
+
+    def raw(x):
+        if isinstance(x, pywbem.CIMDateTime):
+            # only values that the Python object denotes exactly (no
+            # asterisks, nothing beyond what timedelta/datetime can hold)
+            py = x.timedelta if x.is_interval else x.datetime
+            if py is not None and str(pywbem.CIMDateTime(py)) == str(x):
+                return py
+        return x
+    if isinstance(pv, list):
+        return [raw(x) for x in pv]
+    return raw(pv)
+
+
 def build_call(call):
     "returns (args list, kwargs dict) ready for getattr(conn, op)"
     kwargs = {}
@@ -314,7 +338,7 @@ def build_call(call):
                           for x in pv] if isinstance(pv, list) else \
                         (None if pv is None else pywbem.Char16(pv))
                 if form == 'tuple':
-                    plist.append((pname, pv))
+                    plist.append((pname, _maybe_raw_datetime(pname, t, pv)))
                 else:
                     plist.append(CIMParameter(pname, t, value=pv,
                                               is_array=is_arr,
@@ -323,7 +347,8 @@ def build_call(call):
             continue
         kwargs[name] = build_arg(name, v)
     for pname, tv in a.get('kwparams', []):
-        kwargs[pname] = build_param_value(tv)
+        kwargs[pname] = _maybe_raw_datetime(pname, tv[0],
+                                            build_param_value(tv))
     return kwargs
 
 
